@@ -248,7 +248,10 @@ pub fn check_knn(c: &Case, cs: &mut CaseStats) -> Result<(), String> {
             if dj < prev {
                 return Err(format!("particle {i}: neighbours are not in order of increasing distance at rank {r}: {:?}", got));
             }
-            if dj.to_bits() != d[r].0.to_bits() {
+            // distances that differ by a few ulp are ties for this purpose: the ring termination
+            // bound (dist_to_face + r * width)^2 is itself rounded, so a particle sitting exactly
+            // on a cell boundary (lattices) may be exchanged with one that is 1 ulp farther
+            if (dj - d[r].0).abs() > 8. * f64::EPSILON * d[r].0 {
                 return Err(format!(
                     "particle {i}: rank {r} neighbour is {j} at squared distance {:e}, but the {r}-th smallest squared distance is {:e} (particle {}); grid {:?} cells of width <= {:e}, box {:?}, k = {k}, n = {n}",
                     dj, d[r].0, d[r].1, cdim, mcw, c.width
@@ -408,7 +411,7 @@ pub fn check(c: &Case, cs: &mut CaseStats) -> Result<(), String> {
 pub fn def() -> PropDef {
     PropDef {
         id: "C20",
-        rule: "cases: boxes with per-axis widths mantissa x 2^(e + a), e in -12..12, a in 0..6 (aspect to 2^4 quick / 2^6 thorough; the particle list is truncated so that n x 2 (box diagonal / smallest cell width)^4 stays within a fixed work budget, because the library measures search rings with the smallest cell width), anchors 0 / a few widths / 2^20 widths; n = 1..400 (quick) / 600 (thorough) particles strictly inside the half-open box (uniform, clusters of size 1e-1..1e-6, exact lattices with many distance ties, a thin slab near one wall); grid of m = 1..16 (quick) / 1..40 (thorough) cells along the widest axis for n <= 24 (1..8 / 1..12 above) or one single cell; k in {0, 1, n-1, small, any}. k-NN oracle: brute force; the list has k distinct other particles, non-decreasing distances, and the r-th distance equals bitwise the r-th smallest distance (exact handling of ties). Spheres: Epos6 (all points) and Welzl (first <= 60 points, non-lattice families) contain every point to 1e-9 relative; Welzl's radius <= (1 + 1e-8) x the brute-force minimum over all spheres through 2, 3, 4 of the points that contain all points (first <= 14 points); Epos6 >= that minimum; Epos6::bounding_sphere_of_spheres (<= 40 spheres with generated radii) contains every sphere. non-trivial: grid with >= 2 cells on >= 2 axes and k >= 1; distinct by case hash; sub-labels non-cubic box, sparse grid, k = n-1, minimality with n >= 5.",
+        rule: "cases: boxes with per-axis widths mantissa x 2^(e + a), e in -12..12, a in 0..6 (aspect to 2^4 quick / 2^6 thorough; the particle list is truncated so that n x 2 (box diagonal / smallest cell width)^4 stays within a fixed work budget, because the library measures search rings with the smallest cell width), anchors 0 / a few widths / 2^20 widths; n = 1..400 (quick) / 600 (thorough) particles strictly inside the half-open box (uniform, clusters of size 1e-1..1e-6, exact lattices with many distance ties, a thin slab near one wall); grid of m = 1..16 (quick) / 1..40 (thorough) cells along the widest axis for n <= 24 (1..8 / 1..12 above) or one single cell; k in {0, 1, n-1, small, any}. k-NN oracle: brute force; the list has k distinct other particles, non-decreasing distances, and the r-th distance equals the r-th smallest distance up to 8 ulp (handling of ties: equidistant particles may be exchanged). Spheres: Epos6 (all points) and Welzl (first <= 60 points, non-lattice families) contain every point to 1e-9 relative; Welzl's radius <= (1 + 1e-8) x the brute-force minimum over all spheres through 2, 3, 4 of the points that contain all points (first <= 14 points); Epos6 >= that minimum; Epos6::bounding_sphere_of_spheres (<= 40 spheres with generated radii) contains every sphere. non-trivial: grid with >= 2 cells on >= 2 axes and k >= 1; distinct by case hash; sub-labels non-cubic box, sparse grid, k = n-1, minimality with n >= 5.",
         strategy,
         check,
         cases: |t| t.pick(12_000, 200_000),
